@@ -109,8 +109,38 @@ def _run_srcdump(out):
 def ensure(tier="quick"):
     """Returns (dir, info). Facts for the current tree; thorough never reuses cache or target dir."""
     os.makedirs(BUILD, exist_ok=True)
-    lock = open(os.path.join(BUILD, ".lock"), "w")
-    fcntl.flock(lock, fcntl.LOCK_EX)
+    if tier != "thorough":
+        # cache hit: no lock needed (a facts dir is published by renaming a complete temporary dir into place)
+        try:
+            h0 = tree_hash()
+            d0 = os.path.join(BUILD, "facts", h0)
+            if os.path.exists(os.path.join(d0, "mir.json")) and os.path.exists(os.path.join(d0, "src.json")) and os.path.exists(os.path.join(d0, ".complete")):
+                try:
+                    os.utime(d0, None)
+                except OSError:
+                    pass
+                return d0, {"hash": h0, "cached": True}
+        except Exception:
+            pass
+    # extraction slots: each has its own cargo target dir, so several trees can be extracted at once (slot 0 is the default one)
+    lock = None
+    slot = 0
+    if tier != "thorough":
+        import time as _t
+        while lock is None:
+            for k in range(8):
+                fh = open(os.path.join(BUILD, ".lock%d" % k if k else ".lock"), "w")
+                try:
+                    fcntl.flock(fh, fcntl.LOCK_EX | fcntl.LOCK_NB)
+                    lock, slot = fh, k
+                    break
+                except OSError:
+                    fh.close()
+            if lock is None:
+                _t.sleep(0.5)
+    else:
+        lock = open(os.path.join(BUILD, ".lock"), "w")
+        fcntl.flock(lock, fcntl.LOCK_EX)
     try:
         build_tools()
         h = tree_hash()
@@ -145,17 +175,27 @@ def ensure(tier="quick"):
         else:
             if os.path.exists(mir) and os.path.exists(src):
                 info["cached"] = True
+                open(os.path.join(d, ".complete"), "w").close()
             else:
-                shutil.rmtree(d, ignore_errors=True)
-                os.makedirs(d)
+                if not os.path.exists(os.path.join(d, ".complete")):
+                    shutil.rmtree(d, ignore_errors=True)
+                tmpd = d + ".tmp%d" % os.getpid()
+                shutil.rmtree(tmpd, ignore_errors=True)
+                os.makedirs(tmpd)
                 t0 = time.time()
-                _run_mirdump(mir, os.path.join(BUILD, "target"))
-                _run_srcdump(src)
+                _run_mirdump(os.path.join(tmpd, "mir.json"), os.path.join(BUILD, "target" if slot == 0 else "target%d" % slot))
+                _run_srcdump(os.path.join(tmpd, "src.json"))
+                open(os.path.join(tmpd, ".complete"), "w").close()
+                try:
+                    os.rename(tmpd, d)
+                except OSError:
+                    # another process published the same tree meanwhile
+                    shutil.rmtree(tmpd, ignore_errors=True)
                 info["extract_s"] = round(time.time() - t0, 2)
-                # keep at most 6 fact dirs
+                # keep at most 24 fact dirs (17 MB each)
                 root = os.path.join(BUILD, "facts")
-                ds = sorted((os.path.getmtime(os.path.join(root, x)), x) for x in os.listdir(root))
-                for _, x in ds[:-6]:
+                ds = sorted((os.path.getmtime(os.path.join(root, x)), x) for x in os.listdir(root) if ".tmp" not in x)
+                for _, x in ds[:-24]:
                     shutil.rmtree(os.path.join(root, x), ignore_errors=True)
         return d, info
     finally:
